@@ -259,3 +259,72 @@ pub fn params_replay(args: &Args) -> i32 {
         "sample":{"vec":vecs.get(vecs.len()/2),"stream":streams.first().map(|s| s.0.clone())}})).unwrap();
     0
 }
+
+/// predictions of the real predictor next to plaintext, parameters and tokens, for Trace_Match
+pub fn match_record(args: &Args) -> i32 {
+    quiet_panics();
+    let seed = args.num("seed", 1);
+    let mut rng = Rng::new(seed ^ 0x3A7C);
+    let maxplain = args.num("maxplain", 3000) as usize;
+    let mut streams: Vec<(String, Vec<u8>)> = Vec::new();
+    for _ in 0..args.num("streams", 12) {
+        let (pn, plain) = crate::gen::plaintext(&mut rng, maxplain);
+        // zlib and miniz level 1 are the compressors whose hash functions the specification covers
+        let (cn, s) = match rng.below(5) {
+            0 => ("miniz:l1".to_string(), crate::gen::miniz_raw(&plain, 1)),
+            _ => {
+                let level = rng.range(1, 9) as i32;
+                let mem = *rng.pick(&[8, 8, 9, 6, 1]);
+                (format!("zlib:l{}:m{}", level, mem), crate::gen::zlib_raw(&plain, level, *rng.pick(&[0, 0, 0, 1, 3]), 15, mem))
+            }
+        };
+        streams.push((format!("{}/{}", pn, cn), s));
+    }
+    for (label, s) in crate::gen::sweep_streams(&mut rng, args.num("sweeps", 3) as usize, args.num("window", 3) as usize) {
+        streams.push((label, s));
+    }
+    let mut out = std::io::BufWriter::new(std::fs::File::create(args.req("out")).unwrap());
+    let mut cases = std::io::BufWriter::new(std::fs::File::create(format!("{}.cases", args.req("out"))).unwrap());
+    let mut run = 0;
+    let mut supported = 0;
+    for (label, s) in &streams {
+        verif::predictor_log_start();
+        let a = guarded(|| verif::analyse_trace(s));
+        let preds = verif::predictions_take();
+        let states = verif::predictor_log_take();
+        let a = match a { Ok(a) => a, Err(_) => continue };
+        let (parse, params) = match (&a.parse, &a.params) { (Some(p), Some(q)) if a.error.is_none() => (p, q), _ => continue };
+        if parse.plain.len() > maxplain * 2 {
+            continue;
+        }
+        let sup = (params[4] == 1 || params[4] == 2) && params[0] <= 1;
+        writeln!(cases, "{}", json!({"run":run,"label":label,"hex":hex(s)})).unwrap();
+        writeln!(out, "{}", event("Reset", json!({"run":run,"label":label,"params":params,"supported":sup,
+            "plain": if sup { Value::Array(parse.plain.iter().map(|b| json!(b)).collect()) } else { json!([]) }}))).unwrap();
+        if !sup {
+            writeln!(out, "{}", event("Skip", json!({}))).unwrap();
+            run += 1;
+            continue;
+        }
+        supported += 1;
+        let mut k = 0usize;
+        for b in &parse.blocks {
+            if b.block_type == 0 {
+                writeln!(out, "{}", event("Stored", json!({"len": b.stored.len()}))).unwrap();
+                continue;
+            }
+            writeln!(out, "{}", event("Block", json!({}))).unwrap();
+            for t in &b.tokens {
+                let tj = match t { Tok::Lit(v) => json!([0, v, 0, 0]), Tok::Ref { len, dist, irregular258 } => json!([1, len, dist, *irregular258 as u32]) };
+                let (st, pr) = (states.get(k), preds.get(k));
+                let pj = match pr { Some(p) => match &p.1 { Tok::Lit(_) => json!([0, 0, 0]), Tok::Ref { len, dist, .. } => json!([1, len, dist]) }, None => json!([9, 9, 9]) };
+                writeln!(out, "{}", event("Tok", json!({"t": tj, "p": pj, "pos": st.map(|x| x.pos).unwrap_or(0), "pend": st.map(|x| x.pending as u32).unwrap_or(9)}))).unwrap();
+                k += 1;
+            }
+        }
+        writeln!(out, "{}", event("End", json!({}))).unwrap();
+        run += 1;
+    }
+    eprintln!("{} runs, {} with a supported hash", run, supported);
+    0
+}
